@@ -239,7 +239,7 @@ def run(tier, seed):
     step = 16 if tier == "quick" else 64
     blocks = [(tier, i, min(i + step, n)) for i in range(0, n, step)]
     total, capped = run_blocks(worker, blocks, seed=seed)
-    rep.add_violations(total.violations)
+    rep.add_violations(total.violations, total.hist_sig)
     rep.harness_errors = total.stats.get("harness_errors", 0)
     rep.notes.extend(total.notes)
     rep.coverage = {
